@@ -317,9 +317,66 @@ Proof.
   - contradiction Hh; reflexivity.
 Qed.
 
+(* ---------------------------------------------------------------- core.heads *)
+
+Lemma known_head_cons : forall k x h, known_head k h = true -> known_head (x :: k) h = true.
+Proof.
+  intros k x [y|] H; [|reflexivity]. cbn [known_head existsb] in *. rewrite H. apply orb_true_r.
+Qed.
+
+Lemma heads_ok_cons : forall k x hs, heads_ok k hs = true -> heads_ok (x :: k) hs = true.
+Proof.
+  intros k x hs. unfold heads_ok. induction hs as [|p r IH]; cbn [forallb]; intros H; [reflexivity|].
+  apply andb_true_iff in H; destruct H as [Hp Hr]. rewrite (known_head_cons _ _ _ Hp), (IH Hr). reflexivity.
+Qed.
+
+Lemma heads_ok_del : forall k hs c, heads_ok k hs = true -> heads_ok k (del_head hs c) = true.
+Proof.
+  intros k hs c. unfold heads_ok, del_head. induction hs as [|p r IH]; cbn [forallb filter]; intros H; [reflexivity|].
+  apply andb_true_iff in H; destruct H as [Hp Hr].
+  destruct (negb (fst p =? c)); [cbn [forallb]; rewrite Hp, (IH Hr); reflexivity|exact (IH Hr)].
+Qed.
+
+Lemma heads_ok_set : forall k hs c v,
+  heads_ok k hs = true -> known_head k v = true -> heads_ok k (set_head hs c v) = true.
+Proof.
+  intros k hs c v H Hv. unfold set_head. change (heads_ok k ((c, v) :: del_head hs c)) with
+    (known_head k v && heads_ok k (del_head hs c)). rewrite Hv, (heads_ok_del _ _ _ H). reflexivity.
+Qed.
+
+(* as long as every recorded head is an event of the hashgraph, recording the heads succeeds and the
+   property is kept - whether the event of the message was inserted or skipped *)
+Lemma sync_heads_ok : forall known heads busy ins m,
+  heads_ok known heads = true ->
+  fst (fst (sync_heads known heads busy ins m)) = true /\
+  heads_ok (snd (fst (sync_heads known heads busy ins m))) (snd (sync_heads known heads busy ins m)) = true.
+Proof.
+  intros known heads busy ins m H. unfold sync_heads.
+  set (known1 := if ins then em_id m :: known else known).
+  set (other := if ins && (em_creator m =? em_from m) then Some (em_id m) else None).
+  set (heads1 := if ins then match head_of heads (em_creator m) with
+                             | Some (Some _) => del_head heads (em_creator m) | _ => heads end else heads).
+  assert (H1 : heads_ok known1 heads1 = true).
+  { unfold known1, heads1. destruct ins; [|exact H].
+    destruct (head_of heads (em_creator m)) as [[?|]|]; try (apply heads_ok_cons; exact H).
+    apply heads_ok_cons. apply heads_ok_del. exact H. }
+  assert (Ho : known_head known1 other = true).
+  { unfold known1, other. destruct ins; cbn [andb]; [|reflexivity].
+    destruct (em_creator m =? em_from m); [|reflexivity].
+    cbn [known_head existsb]. rewrite Z.eqb_refl. reflexivity. }
+  set (heads2 := match head_of heads1 (em_from m), other with
+                 | Some (Some _), None => heads1 | _, _ => set_head heads1 (em_from m) other end).
+  assert (H2 : heads_ok known1 heads2 = true).
+  { unfold heads2. destruct (head_of heads1 (em_from m)) as [[?|]|]; destruct other;
+      try (apply heads_ok_set; assumption); exact H1. }
+  destruct busy; cbn [fst snd]; [rewrite H2; cbn [fst snd]; split; reflexivity|split; [reflexivity|exact H2]].
+Qed.
+
+(* ---------------------------------------------------------------- the node *)
+
 Lemma handle_safe : forall st c, ns_locked st = false -> safe (fst (handle repaired st c)).
 Proof.
-  intros st c L. destruct c as [limit de|e sigs|t present| |f snap blocks]; cbn [handle]; rewrite L.
+  intros st c L. destruct c as [limit de|e sigs m|t present| |f snap blocks]; cbn [handle]; rewrite L.
   - destruct (negb (gate (ns_state st) true)); [apply safe_err|].
     cbn [fst]. apply safe_bind; [apply sync_request_safe|intros; apply safe_ok].
   - destruct (negb (gate (ns_state st) false)); [apply safe_err|].
@@ -327,9 +384,12 @@ Proof.
     pose proof (event_verify_safe (we_itxs e) (we_bsigs e) (we_creator e) (we_sig e) (we_sigok e)) as [Hp Hh].
     destruct (event_verify repaired (we_itxs e) (we_bsigs e) (we_creator e) (we_sig e) (we_sigok e)) as [[|]| | |];
       cbn [fst]; try apply safe_err.
-    + destruct (negb (we_rest_ok e)); [apply safe_err|].
-      pose proof (process_sigpool_repaired_ok (ns_pool st ++ sigs)) as H.
-      destruct (process_sigpool repaired (ns_pool st ++ sigs)) as [o rest]. cbn [fst] in *. subst o. apply safe_ok.
+    + destruct (negb (we_rest_ok e) && negb (em_normal m)); [apply safe_err|].
+      destruct (sync_heads (ns_known st) (ns_heads st) (ns_busy st) (we_rest_ok e) m) as [[rc k'] h'].
+      destruct (negb rc); [apply safe_err|].
+      set (pending := if we_rest_ok e then ns_pool st ++ sigs else ns_pool st).
+      pose proof (process_sigpool_repaired_ok pending) as H.
+      destruct (process_sigpool repaired pending) as [o rest]. cbn [fst] in *. subst o. apply safe_ok.
     + contradiction Hp; reflexivity.
     + contradiction Hh; reflexivity.
   - destruct (negb (gate (ns_state st) false)); [apply safe_err|].
@@ -355,7 +415,7 @@ Proof.
           (ns_blocks st' = ns_blocks st /\ ns_app st' = ns_app st) \/
           (o = Ok tt /\ exists f snap blocks, c = RFastForward f snap blocks)).
   { intros o0 E; inversion E; subst; left; split; reflexivity. }
-  destruct c as [limit de|e sigs|t present| |f snap blocks]; cbn [handle] in H.
+  destruct c as [limit de|e sigs m|t present| |f snap blocks]; cbn [handle] in H.
   - destruct (negb (gate (ns_state st) true)); [eapply same; exact H|].
     destruct (ns_locked st); eapply same; exact H.
   - destruct (negb (gate (ns_state st) false)); [eapply same; exact H|].
@@ -363,8 +423,10 @@ Proof.
     destruct (negb (we_read_ok e)); [eapply same; exact H|].
     destruct (event_verify repaired (we_itxs e) (we_bsigs e) (we_creator e) (we_sig e) (we_sigok e)) as [[|]| | |];
       try (eapply same; exact H).
-    destruct (negb (we_rest_ok e)); [eapply same; exact H|].
-    destruct (process_sigpool repaired (ns_pool st ++ sigs)) as [o' rest].
+    destruct (negb (we_rest_ok e) && negb (em_normal m)); [eapply same; exact H|].
+    destruct (sync_heads (ns_known st) (ns_heads st) (ns_busy st) (we_rest_ok e) m) as [[rc k'] h'].
+    destruct (negb rc); [inversion H; subst; left; split; reflexivity|].
+    destruct (process_sigpool repaired (if we_rest_ok e then ns_pool st ++ sigs else ns_pool st)) as [o' rest].
     inversion H; subst; left; split; reflexivity.
   - destruct (negb (gate (ns_state st) false)); [eapply same; exact H|].
     destruct (ns_locked st); eapply same; exact H.
@@ -378,77 +440,149 @@ Proof.
     inversion H; subst. right; split; [reflexivity|]. exists f, snap, blocks; reflexivity.
 Qed.
 
-(* state fields that no command changes; in particular the core lock is released on every path *)
+(* what every command does to the node state, in one place: the fields no command changes (the core
+   lock is released on every path), the event count never decreases, and every recorded head stays an
+   event of the hashgraph *)
+Lemma handle_invariants : forall fx st c,
+  let st' := snd (handle fx st c) in
+  ns_state st' = ns_state st /\ ns_conf_limit st' = ns_conf_limit st /\ ns_locked st' = ns_locked st /\
+  ns_busy st' = ns_busy st /\ ns_events st <= ns_events st' /\
+  (heads_ok (ns_known st) (ns_heads st) = true -> heads_ok (ns_known st') (ns_heads st') = true).
+Proof.
+  intros fx st c.
+  assert (same : let st' := st in
+          ns_state st' = ns_state st /\ ns_conf_limit st' = ns_conf_limit st /\ ns_locked st' = ns_locked st /\
+          ns_busy st' = ns_busy st /\ ns_events st <= ns_events st' /\
+          (heads_ok (ns_known st) (ns_heads st) = true -> heads_ok (ns_known st') (ns_heads st') = true)).
+  { cbv zeta. repeat split; try lia. intros H; exact H. }
+  destruct c as [limit de|e sigs m|t present| |f snap blocks]; cbn [handle].
+  - destruct (negb (gate (ns_state st) true)); [exact same|]. destruct (ns_locked st); exact same.
+  - destruct (negb (gate (ns_state st) false)); [exact same|].
+    destruct (ns_locked st) eqn:L; [exact same|].
+    destruct (negb (we_read_ok e)); [exact same|].
+    destruct (event_verify fx (we_itxs e) (we_bsigs e) (we_creator e) (we_sig e) (we_sigok e)) as [[|]| | |];
+      try exact same.
+    destruct (negb (we_rest_ok e) && negb (em_normal m)); [exact same|].
+    pose proof (sync_heads_ok (ns_known st) (ns_heads st) (ns_busy st) (we_rest_ok e) m) as SH.
+    destruct (sync_heads (ns_known st) (ns_heads st) (ns_busy st) (we_rest_ok e) m) as [[rc k'] h'].
+    cbn [fst snd] in SH.
+    assert (Hev : ns_events st <= (if we_rest_ok e then ns_events st + 1 else ns_events st))
+      by (destruct (we_rest_ok e); lia).
+    destruct (negb rc).
+    + cbv zeta. cbn [snd ns_state ns_conf_limit ns_locked ns_busy ns_events ns_known ns_heads].
+      repeat split; try assumption; try reflexivity. intros H; apply SH; exact H.
+    + destruct (process_sigpool fx (if we_rest_ok e then ns_pool st ++ sigs else ns_pool st)) as [o' rest].
+      cbv zeta. cbn [snd ns_state ns_conf_limit ns_locked ns_busy ns_events ns_known ns_heads].
+      repeat split; try assumption; try reflexivity. intros H; apply SH; exact H.
+  - destruct (negb (gate (ns_state st) false)); [exact same|]. destruct (ns_locked st); exact same.
+  - destruct (negb (gate (ns_state st) false)); [exact same|]. destruct (ns_locked st); exact same.
+  - destruct (negb (ns_state st =? 1)); [exact same|].
+    destruct (ns_locked st) eqn:L; [exact same|].
+    destruct (fx_restore fx); destruct (ff_check fx f) as [[]| | |];
+      try solve [exact same
+                |cbv zeta; cbn [snd set_app ns_state ns_conf_limit ns_locked ns_busy ns_events ns_known ns_heads];
+                 repeat split; try lia; try assumption; intros H; exact H];
+      destruct (fx_rehearse fx && negb (ff_insert_ok f));
+      try solve [exact same
+                |cbv zeta; cbn [snd set_app ns_state ns_conf_limit ns_locked ns_busy ns_events ns_known ns_heads];
+                 repeat split; try lia; try assumption; intros H; exact H];
+      destruct (negb (ff_insert_ok f));
+      cbv zeta; cbn [snd set_app set_blocks reset_graph ns_state ns_conf_limit ns_locked ns_busy ns_events ns_known ns_heads];
+      repeat split; try lia; try assumption; try (intros _; reflexivity).
+Qed.
+
 Lemma handle_frame : forall fx st c,
   ns_state (snd (handle fx st c)) = ns_state st /\ ns_conf_limit (snd (handle fx st c)) = ns_conf_limit st /\
   ns_locked (snd (handle fx st c)) = ns_locked st.
-Proof.
-  intros fx st c.
-  destruct (ns_locked st) eqn:L;
-  destruct c as [limit de|e sigs|t present| |f snap blocks]; cbn [handle]; rewrite ?L.
-  - destruct (negb (gate (ns_state st) true)); cbn [snd]; rewrite ?L; repeat split.
-  - destruct (negb (gate (ns_state st) false)); cbn [snd]; rewrite ?L; repeat split.
-  - destruct (negb (gate (ns_state st) false)); cbn [snd]; rewrite ?L; repeat split.
-  - destruct (negb (gate (ns_state st) false)); cbn [snd]; rewrite ?L; repeat split.
-  - destruct (negb (ns_state st =? 1)); cbn [snd]; rewrite ?L; repeat split.
-  - destruct (negb (gate (ns_state st) true)); cbn [snd]; rewrite ?L; repeat split.
-  - destruct (negb (gate (ns_state st) false)); [cbn [snd]; rewrite ?L; repeat split|].
-    destruct (negb (we_read_ok e)); [cbn [snd]; rewrite ?L; repeat split|].
-    destruct (event_verify fx (we_itxs e) (we_bsigs e) (we_creator e) (we_sig e) (we_sigok e)) as [[|]| | |];
-      try solve [cbn [snd]; rewrite ?L; repeat split].
-    destruct (negb (we_rest_ok e)); [cbn [snd]; rewrite ?L; repeat split|].
-    destruct (process_sigpool fx (ns_pool st ++ sigs)) as [o' rest].
-    cbn [snd ns_state ns_conf_limit ns_locked]. rewrite ?L. repeat split.
-  - destruct (negb (gate (ns_state st) false)); cbn [snd]; rewrite ?L; repeat split.
-  - destruct (negb (gate (ns_state st) false)); cbn [snd]; rewrite ?L; repeat split.
-  - destruct (negb (ns_state st =? 1)); [cbn [snd]; rewrite ?L; repeat split|].
-    destruct (fx_restore fx); destruct (ff_check fx f) as [[]| | |];
-      try solve [cbn [snd set_app ns_state ns_conf_limit ns_locked]; rewrite ?L; repeat split];
-      destruct (fx_rehearse fx && negb (ff_insert_ok f));
-      try solve [cbn [snd set_app ns_state ns_conf_limit ns_locked]; rewrite ?L; repeat split];
-      destruct (negb (ff_insert_ok f)); cbn [snd set_app set_blocks ns_state ns_conf_limit ns_locked]; rewrite ?L; repeat split.
-Qed.
+Proof. intros fx st c. destruct (handle_invariants fx st c) as [A [B [C _]]]. repeat split; assumption. Qed.
 
 Lemma handle_releases_lock : forall fx st c, ns_locked st = false -> ns_locked (snd (handle fx st c)) = false.
 Proof. intros fx st c L. destruct (handle_frame fx st c) as [_ [_ H]]. rewrite H. exact L. Qed.
 
 Lemma handle_events_mono : forall fx st c, ns_events st <= ns_events (snd (handle fx st c)).
+Proof. intros fx st c. destruct (handle_invariants fx st c) as [_ [_ [_ [_ [H _]]]]]. exact H. Qed.
+
+(* every recorded head is an event of the hashgraph: kept by every command, in particular by an event
+   that is refused or silently skipped (both versions of the code) *)
+Lemma handle_heads_known : forall fx st c,
+  heads_ok (ns_known st) (ns_heads st) = true ->
+  heads_ok (ns_known (snd (handle fx st c))) (ns_heads (snd (handle fx st c))) = true.
+Proof. intros fx st c. destruct (handle_invariants fx st c) as [_ [_ [_ [_ [_ H]]]]]. exact H. Qed.
+
+Lemma head_of_del_same : forall hs c, head_of (del_head hs c) c = None.
 Proof.
-  intros fx st c. destruct c as [limit de|e sigs|t present| |f snap blocks]; cbn [handle].
-  - destruct (negb (gate (ns_state st) true)); [cbn [snd]; lia|]. destruct (ns_locked st); cbn [snd]; lia.
-  - destruct (negb (gate (ns_state st) false)); [cbn [snd]; lia|].
-    destruct (ns_locked st); [cbn [snd]; lia|].
-    destruct (negb (we_read_ok e)); [cbn [snd]; lia|].
-    destruct (event_verify fx (we_itxs e) (we_bsigs e) (we_creator e) (we_sig e) (we_sigok e)) as [[|]| | |];
-      try (cbn [snd]; lia).
-    destruct (negb (we_rest_ok e)); [cbn [snd]; lia|].
-    destruct (process_sigpool fx (ns_pool st ++ sigs)) as [o' rest]. cbn [snd ns_events]. lia.
-  - destruct (negb (gate (ns_state st) false)); [cbn [snd]; lia|]. destruct (ns_locked st); cbn [snd]; lia.
-  - destruct (negb (gate (ns_state st) false)); [cbn [snd]; lia|]. destruct (ns_locked st); cbn [snd]; lia.
-  - destruct (negb (ns_state st =? 1)); [cbn [snd]; lia|].
-    destruct (ns_locked st); [cbn [snd]; lia|].
-    destruct (fx_restore fx); destruct (ff_check fx f) as [[]| | |]; try (cbn [snd set_app ns_events]; lia);
-      destruct (fx_rehearse fx && negb (ff_insert_ok f)); try (cbn [snd set_app ns_events]; lia);
-      destruct (negb (ff_insert_ok f)); cbn [snd set_app set_blocks ns_events]; lia.
+  intros hs c. unfold head_of, del_head. induction hs as [|p r IH]; cbn [filter find]; [reflexivity|].
+  destruct (fst p =? c) eqn:E; cbn [negb]; [exact IH|]. cbn [find]. rewrite E. exact IH.
+Qed.
+
+Lemma head_of_del_other : forall hs c k, (c =? k) = false -> head_of (del_head hs c) k = head_of hs k.
+Proof.
+  intros hs c k N. unfold head_of, del_head. induction hs as [|p r IH]; cbn [filter find]; [reflexivity|].
+  destruct (fst p =? c) eqn:E; cbn [negb].
+  - apply Z.eqb_eq in E. rewrite E, N. exact IH.
+  - cbn [find]. destruct (fst p =? k); [reflexivity|exact IH].
+Qed.
+
+(* a refused or silently skipped event (a validly signed fork, a duplicate, ...) leaves the hashgraph
+   as it was and never becomes - nor makes anything else become - the head to use for the next
+   self-event: every non-nil head after it was that same head before it *)
+Lemma skipped_event_no_new_head : forall fx st e sigs m,
+  we_rest_ok e = false ->
+  let st' := snd (handle fx st (CEager e sigs m)) in
+  ns_known st' = ns_known st /\
+  forall k h, head_of (ns_heads st') k = Some (Some h) -> head_of (ns_heads st) k = Some (Some h).
+Proof.
+  intros fx st e sigs m R. cbv zeta.
+  assert (same : ns_known st = ns_known st /\
+                 forall k h, head_of (ns_heads st) k = Some (Some h) -> head_of (ns_heads st) k = Some (Some h))
+    by (split; [reflexivity|intros k h H; exact H]).
+  cbn [handle].
+  destruct (negb (gate (ns_state st) false)); [exact same|].
+  destruct (ns_locked st); [exact same|].
+  destruct (negb (we_read_ok e)); [exact same|].
+  destruct (event_verify fx (we_itxs e) (we_bsigs e) (we_creator e) (we_sig e) (we_sigok e)) as [[|]| | |];
+    try exact same.
+  rewrite R. cbn [negb andb].
+  destruct (negb (em_normal m)); [exact same|].
+  unfold sync_heads. cbn [andb].
+  assert (H2 : forall k h,
+    head_of (match head_of (ns_heads st) (em_from m) with
+             | Some (Some _) => ns_heads st
+             | _ => set_head (ns_heads st) (em_from m) None end) k = Some (Some h) ->
+    head_of (ns_heads st) k = Some (Some h)).
+  { intros k h. destruct (head_of (ns_heads st) (em_from m)) as [[x|]|] eqn:E; intros H; try exact H;
+      unfold set_head in H; unfold head_of in H at 1; cbn [find fst snd] in H;
+      destruct (em_from m =? k) eqn:Ek; try discriminate;
+      fold (head_of (del_head (ns_heads st) (em_from m)) k) in H;
+      rewrite (head_of_del_other _ _ _ Ek) in H; exact H. }
+  destruct (ns_busy st).
+  - destruct (heads_ok (ns_known st) _) eqn:HO; cbn [negb].
+    + destruct (process_sigpool fx (ns_pool st)) as [o' rest]. cbn [snd ns_known ns_heads].
+      split; [reflexivity|]. intros k h H. discriminate H.
+    + cbn [snd ns_known ns_heads]. split; [reflexivity|exact H2].
+  - cbn [negb]. destruct (process_sigpool fx (ns_pool st)) as [o' rest]. cbn [snd ns_known ns_heads].
+    split; [reflexivity|exact H2].
 Qed.
 
 Definition is_request (c : cmd) : bool :=
   match c with RFastForward _ _ _ => false | _ => true end.
 
 (* whatever request was answered without error before an arbitrary message - a sync request whose
-   eventDiff fails included - is still answered without error after it *)
+   eventDiff fails, a validly signed but ill-chained event included - is still answered without error
+   after it *)
 Lemma handle_still_serves : forall st c v,
   ns_locked st = false ->
+  heads_ok (ns_known st) (ns_heads st) = true ->
   is_request v = true ->
   fst (handle repaired st v) = Ok tt ->
   fst (handle repaired (snd (handle repaired st c)) v) = Ok tt.
 Proof.
-  intros st c v L Hv Hok.
-  destruct (handle_frame repaired st c) as [Hs [Hc Hl]].
-  pose proof (handle_events_mono repaired st c) as Hm.
+  intros st c v L HK Hv Hok.
+  destruct (handle_invariants repaired st c) as [Hs [Hc [Hl [Hb [Hm Hh]]]]].
+  specialize (Hh HK).
   set (st' := snd (handle repaired st c)) in *.
   rewrite L in Hl.
-  destruct v as [limit de|e sigs|t present| |f snap blocks]; [| | | |discriminate]; cbn [handle] in *;
+  destruct v as [limit de|e sigs m|t present| |f snap blocks]; [| | | |discriminate]; cbn [handle] in *;
     rewrite Hs, Hl; rewrite L in Hok.
   - destruct (negb (gate (ns_state st) true)); [discriminate|].
     cbn [fst] in *. rewrite Hc.
@@ -473,9 +607,14 @@ Proof.
     destruct (negb (we_read_ok e)); [discriminate|].
     destruct (event_verify repaired (we_itxs e) (we_bsigs e) (we_creator e) (we_sig e) (we_sigok e)) as [[|]| | |];
       try discriminate.
-    destruct (negb (we_rest_ok e)); [discriminate|].
-    pose proof (process_sigpool_repaired_ok (ns_pool st' ++ sigs)) as H.
-    destruct (process_sigpool repaired (ns_pool st' ++ sigs)) as [o rest]. exact H.
+    destruct (negb (we_rest_ok e) && negb (em_normal m)); [discriminate|].
+    rewrite Hb.
+    pose proof (sync_heads_ok (ns_known st') (ns_heads st') (ns_busy st) (we_rest_ok e) m Hh) as [SH _].
+    destruct (sync_heads (ns_known st') (ns_heads st') (ns_busy st) (we_rest_ok e) m) as [[rc k'] h'].
+    cbn [fst] in SH. subst rc. cbn [negb].
+    set (pending := if we_rest_ok e then ns_pool st' ++ sigs else ns_pool st').
+    pose proof (process_sigpool_repaired_ok pending) as H.
+    destruct (process_sigpool repaired pending) as [o rest]. exact H.
   - destruct (negb (gate (ns_state st) false)); [discriminate|exact Hok].
   - destruct (negb (gate (ns_state st) false)); [discriminate|reflexivity].
 Qed.
